@@ -3,11 +3,13 @@
 import json, sys
 pid = sys.argv[1]
 n = sys.argv[2] if len(sys.argv) > 2 else "2"
+WT = sys.argv[3] if len(sys.argv) > 3 else "/tmp/wt"
+OUT = sys.argv[4] if len(sys.argv) > 4 else "/tmp/seeded_out"
 for l in open('/verif/properties.jsonl'):
     p = json.loads(l)
     if p['id'] == pid:
         break
-print(f"""You are helping test a verification effort for the Rust repository facebook/winterfell (a STARK prover/verifier library). You have your own scratch git worktree of the repository at /tmp/wt/{pid} (toolchain and all dependencies are available offline; always pass --offline to cargo and set CARGO_NET_OFFLINE=true; a Cargo.lock is already in the worktree). Work ONLY inside /tmp/wt/{pid} and write your deliverables to /tmp/seeded_out/{pid}/ . Do not read or touch /verif or /repo.
+print(f"""You are helping test a verification effort for the Rust repository facebook/winterfell (a STARK prover/verifier library). You have your own scratch git worktree of the repository at {WT}/{pid} (toolchain and all dependencies are available offline; always pass --offline to cargo and set CARGO_NET_OFFLINE=true; a Cargo.lock is already in the worktree). Work ONLY inside {WT}/{pid} and write your deliverables to {OUT}/{pid}/ . Do not read or touch /verif or /repo.
 
 Here is a semantic property of winterfell that should hold:
 
@@ -21,7 +23,7 @@ Your task: produce {n} DIFFERENT, independent, realistic source changes (bugs a 
   (b) still COMPILES and still PASSES the entire existing test suite (`cargo test --workspace --offline` in the worktree; all 244 tests must pass — check this yourself), and
   (c) needs something SPECIFIC to manifest — an unusual input, a particular size/threshold, a particular interleaving or thread count, a multi-step sequence of operations, a rarely used parameter combination, or two cooperating sites that each look fine alone — NOT something that ordinary use or the most obvious smoke test would expose at once. Avoid changes that break nearly every input. Do not modify tests, and do not add cfg flags or environment-variable triggers; the change must be an ordinary code change.
 
-For each change i (1..{n}) deliver in /tmp/seeded_out/{pid}/change<i>/ :
+For each change i (1..{n}) deliver in {OUT}/{pid}/change<i>/ :
   - patch.diff  : `git diff` of the library change only (relative to HEAD, applies with `git apply` at the repo root),
   - a demonstration: EITHER a new Rust test file/integration test OR a tiny standalone program (put it in demo/ with exact instructions) that FAILS with the change applied and PASSES on the unmodified tree. The demonstration must use only the public API where possible. Give the exact command to run it in notes.md,
   - notes.md : what the change is, why it breaks the property, what specific condition it needs to manifest, the commands you ran and their results (test suite pass with the change; demo fails with change; demo passes without change).
